@@ -134,6 +134,73 @@ def _ifexp_form(s):
     return new
 
 
+def _has_loop_ctl(stmts):
+    """break/continue that would bind to a newly introduced loop."""
+    stack = list(stmts)
+    while stack:
+        n = stack.pop()
+        if isinstance(n, (ast.Break, ast.Continue)):
+            return True
+        if isinstance(n, (ast.For, ast.While, ast.FunctionDef, ast.ClassDef,
+                          ast.AsyncFor, ast.Lambda)):
+            continue
+        stack.extend(ast.iter_child_nodes(n))
+    return False
+
+
+def _anyall_form(s, used_outside, counter):
+    """`if any(P for x in X): A else: B` ->
+           for x in X:
+               if P: A; break
+           else: B
+    (all(P ...) is not any(not P ...)).  any() stops at the first truthy P, as
+    the loop does; A and B must not contain break/continue of an outer loop."""
+    if not isinstance(s, ast.If):
+        return None
+    t, neg = s.test, False
+    if isinstance(t, ast.UnaryOp) and isinstance(t.op, ast.Not):
+        t, neg = t.operand, True
+    if not (isinstance(t, ast.Call) and isinstance(t.func, ast.Name) and
+            t.func.id in ("any", "all") and len(t.args) == 1 and
+            not t.keywords and isinstance(t.args[0], ast.GeneratorExp)):
+        return None
+    gen = t.args[0]
+    if len(gen.generators) != 1 or gen.generators[0].is_async:
+        return None
+    if _has_loop_ctl(s.body) or _has_loop_ctl(s.orelse):
+        return None
+    g = copy.deepcopy(gen.generators[0])
+    elt = copy.deepcopy(gen.elt)
+    mp = {}
+    for nm in _target_names(g.target):
+        if nm in used_outside:
+            counter[0] += 1
+            mp[nm] = "%s__c%d" % (nm, counter[0])
+    if mp:
+        r = _Ren(mp)
+        elt = r.visit(elt)
+        g.target = r.visit(g.target)
+        g.ifs = [r.visit(x) for x in g.ifs]
+    pred = elt
+    if t.func.id == "all":
+        pred = ast.UnaryOp(op=ast.Not(), operand=elt)
+        neg = not neg
+    found, missing = (s.orelse, s.body) if neg else (s.body, s.orelse)
+    inner = ast.If(test=pred, body=list(found) + [ast.Break()], orelse=[])
+    body = [inner]
+    for cond in reversed(g.ifs):
+        body = [ast.If(test=cond, body=body, orelse=[])]
+    _store(g.target)
+    loop = ast.For(target=g.target, iter=g.iter, body=body,
+                   orelse=list(missing))
+    ast.copy_location(loop, s)
+    for sub in ast.walk(loop):
+        if isinstance(sub, (ast.expr, ast.stmt)) and not hasattr(sub, "lineno"):
+            ast.copy_location(sub, s)
+    ast.fix_missing_locations(loop)
+    return loop
+
+
 def desugar_function(fn):
     counter = [0]
     done = [0]
@@ -163,6 +230,16 @@ def desugar_function(fn):
                 done[0] += 1
                 guard += 1
                 break
+            if isinstance(s, ast.If) and isinstance(
+                    s.test, (ast.Call, ast.UnaryOp)):
+                inside = {id(n) for n in ast.walk(s.test)}
+                used = {n.id for n in ast.walk(fn) if isinstance(n, ast.Name)
+                        and id(n) not in inside}
+                used |= {a.arg for a in ast.walk(fn) if isinstance(a, ast.arg)}
+                f = _anyall_form(s, used, counter)
+                if f is not None:
+                    s = f
+                    done[0] += 1
             if _eligible(s):
                 inside = {id(n) for n in ast.walk(s.value)}
                 used = {n.id for n in ast.walk(fn) if isinstance(n, ast.Name)
